@@ -592,3 +592,9 @@ CHECKS["C04"]["thorough"]["tests"].append({"test": "TestC04Volume", "checks": 12
 CHECKS["C04"]["rule"] += (" Plus volume: one DecoderBuffer / Decoder is driven past 2^32 bytes of output without a Reset (periodic "
                           "stream written with window-sized matches, read out and compared completely), with a generated mix of "
                           "WriteByte, Write, WriteMatch, WriteBlock around and behind the 4 GiB mark.")
+CHECKS["C13"]["quick"]["tests"].append({"test": "TestC13Slots", "checks": 800, "subchecks": 5})
+CHECKS["C13"]["thorough"]["tests"].append({"test": "TestC13Slots", "checks": 4000, "subchecks": 5})
+CHECKS["C13"]["rule"] += (" (7) aimed leftovers (TestC13Slots): hash tables of 2^16..2^18 slots; H1 holds an n-gram built to hash to a "
+                          "chosen slot (the first or last four slots, the slots behind the last of 2..16 equal pieces of the table, "
+                          "the piece boundaries, or any slot), H2 holds a near-copy at the same position and the n-gram further on; "
+                          "GOMAXPROCS (1..16, mostly not a power of two) is part of the case; same differential oracle.")
